@@ -81,10 +81,11 @@ pub(crate) fn scan_constant_dimen<S: TexlangState>(
         Value::Other(',' | '.') => (0, scan_decimal_fraction(input)?),
         _ => {
             input.back(first_token);
-            let (_, i, radix) = super::integer::parse_integer(input)?;
+            let (_, i, radix, space_terminated) = super::integer::parse_integer(input)?;
             // We scan for a fractional part if the integer was an decimal constant
-            // and the next token is a period or comma.
-            let fractional_part = if radix == Some(10) {
+            // and the next token is a period or comma. A space after the constant
+            // ends the number: in `1 .5pt` the `.5pt` is not part of it (TeX.2021.448).
+            let fractional_part = if radix == Some(10) && !space_terminated {
                 match input.next()? {
                     Some(next) => match next.value() {
                         Value::Other(',' | '.') => scan_decimal_fraction(input)?,
